@@ -587,6 +587,25 @@ func (c *Ctx) boundsJustified(in ssa.Instruction, outer []core.Lit) (string, boo
 	}
 	if idx != nil {
 		ri := c.res(idx)
+		// 0b. the less function handed to sort.Slice*/sort.SliceStable over this very slice: sort supplies the indices
+		if prm, ok := ri.(*ssa.Parameter); ok && prm.Parent() == f && f.Parent() != nil {
+			if mc := p.ClosureSite(f); mc != nil {
+				for _, u := range core.Users(mc) {
+					if ci, ok := u.(ssa.CallInstruction); ok {
+						n := core.CalleeName(ci.Common())
+						if (n == "sort.Slice" || n == "sort.SliceStable" || n == "sort.SliceIsSorted") && len(ci.Common().Args) == 2 {
+							sorted := c.res(ci.Common().Args[0])
+							if mi, ok := sorted.(*ssa.MakeInterface); ok {
+								sorted = c.res(mi.X)
+							}
+							if c.sameSlice(x, sorted) || c.res(x) == sorted {
+								return sh, true, "index parameters of the less function are supplied by " + n + " for this very slice"
+							}
+						}
+					}
+				}
+			}
+		}
 		// 1. struct-field ordinal of a value: the packing rules (PACK-P1/P3) size and fill these slices
 		if fr, ok := core.AsFieldLoad(ri); ok && fr.Field == "index" && (fr.Owner == "valueInternal" || fr.Owner == "Value") {
 			return sh, true, "index is the struct-field ordinal of a value; the slice is sized by the ordered value list (rules PACK-P1/P3)"
